@@ -712,6 +712,14 @@ int dhcp_fastpath_prog(struct xdp_md *ctx) {
 		return XDP_PASS;
 	}
 
+	/* The request is rewritten in place from here on, so every reason to fall
+	 * back to the slow path has to be known before the first write: a frame
+	 * handed to the stack with XDP_PASS must still be the client's request.
+	 * Requests whose option area is too short for the reply options (e.g. a
+	 * 300-byte BOOTP-minimum DISCOVER) go to userspace untouched.
+	 */
+	CHECK_BOUNDS_PASS(pkt.dhcp->options, pkt.data_end, MAX_DHCP_REPLY_OPTIONS_LEN);
+
 	/* Determine reply type */
 	__u8 reply_type = (msg_type == DHCP_DISCOVER) ? DHCP_OFFER : DHCP_ACK;
 
@@ -765,15 +773,14 @@ int dhcp_fastpath_prog(struct xdp_md *ctx) {
 	__builtin_memset(pkt.dhcp->sname, 0, sizeof(pkt.dhcp->sname));
 	__builtin_memset(pkt.dhcp->file, 0, sizeof(pkt.dhcp->file));
 
-	/* Build DHCP options */
-	CHECK_BOUNDS_PASS(pkt.dhcp->options, pkt.data_end, MAX_DHCP_REPLY_OPTIONS_LEN);
-
+	/* Build DHCP options (room for them was verified before the first write) */
 	int opt_len = build_dhcp_options(pkt.dhcp->options, pkt.data_end,
 	                                  reply_type, pool, assignment,
 	                                  server_ip);
 	if (opt_len < 0) {
+		/* unreachable after the option-area check above; never pass a rewritten frame */
 		update_stat(STAT_ERROR);
-		return XDP_PASS;
+		return XDP_DROP;
 	}
 
 	/* Calculate total packet size */
@@ -799,8 +806,10 @@ int dhcp_fastpath_prog(struct xdp_md *ctx) {
 	int delta = (int)total_len - (int)orig_len;
 	if (delta != 0) {
 		if (bpf_xdp_adjust_tail(ctx, delta) != 0) {
+			/* The frame already holds the half-built reply; it must not
+			 * reach the stack as if it were the client's request. */
 			update_stat(STAT_ERROR);
-			return XDP_PASS;
+			return XDP_DROP;
 		}
 		/* Note: After adjust_tail, packet pointers are invalidated.
 		 * We've already written all header fields, so we can proceed
